@@ -248,6 +248,8 @@ def run(rep, tier):
                 continue
             if not neg and edge_dominates(g, bid, True, tb):
                 return True
+            if neg and edge_dominates(g, bid, False, tb):
+                return True      # guard clause: `if (!H) return; H.use()`
             if neg:
                 # if (!H) { create / init }  : the use is after the join and the then-branch assigns H or calls init()
                 then_blocks = [s_ for s_, lab in g.succ_labeled(bid) if lab is True]
